@@ -330,10 +330,11 @@ pub fn property() -> Property {
             case_strategy,
             |t| t.pick(160, 6_000),
             check,
-        )],
+        ), crate::fuzz::replay_stream(),
+        ],
         selfcheck: m::selfcheck,
         hang_is_violation: false,
         min_nontrivial_share: 0.05,
-        extra: None,
+        extra: Some(crate::fuzz::extra),
     }
 }
